@@ -775,12 +775,18 @@ static int ec_lnum(char *loc, char *cmd, char *arg, char *txt)
 
 static int ec_undo(char *loc, char *cmd, char *arg, char *txt)
 {
-	return lbuf_undo(xb);
+	int ret = lbuf_undo(xb);
+	if (xrow >= lbuf_len(xb))
+		xrow = MAX(0, lbuf_len(xb) - 1);
+	return ret;
 }
 
 static int ec_redo(char *loc, char *cmd, char *arg, char *txt)
 {
-	return lbuf_redo(xb);
+	int ret = lbuf_redo(xb);
+	if (xrow >= lbuf_len(xb))
+		xrow = MAX(0, lbuf_len(xb) - 1);
+	return ret;
 }
 
 static int ec_mark(char *loc, char *cmd, char *arg, char *txt)
@@ -884,6 +890,8 @@ static int ec_exec(char *loc, char *cmd, char *arg, char *txt)
 	rep = cmd_pipe(ecmd, text, 1);
 	if (rep)
 		lbuf_edit(xb, rep, beg, end);
+	if (xrow >= lbuf_len(xb))	/* the output was shorter than the input */
+		xrow = MAX(0, lbuf_len(xb) - 1);
 	free(text);
 	free(rep);
 	return 0;
